@@ -1,0 +1,65 @@
+//go:build verif
+
+package zset
+
+import "qchen.fun/fatchoy/collections"
+
+// Read-only probe for the verification harness (build tag "verif" only).
+
+// VerifNode describes one skip-list node.  Nodes are numbered 1..n along level 0
+// (0 = nil / the head, -1 = a node that is not on the level-0 chain).
+type VerifNode struct {
+	Score    int64
+	Ele      collections.Comparable
+	Spans    []int // span stored at every level of the node
+	Forwards []int // number of the forward node at every level
+	Backward int   // number of the backward node
+}
+
+// VerifProbe dumps the skip list: the head's levels (all ZSKIPLIST_MAXLEVEL of them), the
+// nodes along level 0, the number of the tail node, and the length and level fields.
+func (s *SortedSet) VerifProbe() (head VerifNode, nodes []VerifNode, tail, length, level int) {
+	zsl := s.zsl
+	num := map[*ZSkipListNode]int{nil: 0}
+	n := 0
+	for x := zsl.head.level[0].forward; x != nil && n < 1<<22; x = x.level[0].forward {
+		n++
+		if _, dup := num[x]; dup { // a cycle: stop
+			break
+		}
+		num[x] = n
+	}
+	id := func(x *ZSkipListNode) int {
+		if x == nil || x == zsl.head {
+			return 0
+		}
+		if k, ok := num[x]; ok {
+			return k
+		}
+		return -1
+	}
+	dump := func(x *ZSkipListNode) VerifNode {
+		v := VerifNode{Score: x.Score, Ele: x.Ele, Backward: id(x.backward)}
+		for _, l := range x.level {
+			v.Spans = append(v.Spans, l.span)
+			v.Forwards = append(v.Forwards, id(l.forward))
+		}
+		return v
+	}
+	head = dump(zsl.head)
+	k := 0
+	for x := zsl.head.level[0].forward; x != nil && k < n; x = x.level[0].forward {
+		k++
+		nodes = append(nodes, dump(x))
+	}
+	return head, nodes, id(zsl.tail), zsl.length, zsl.level
+}
+
+// VerifDict returns a copy of the member -> score table.
+func (s *SortedSet) VerifDict() map[collections.Comparable]int64 {
+	m := make(map[collections.Comparable]int64, len(s.dict))
+	for k, v := range s.dict {
+		m[k] = v
+	}
+	return m
+}
